@@ -629,14 +629,22 @@ def gen_inf_case(rng, plain=False, extra=None):
     frozen = s['p'] + s['u'] + s['pc']
     ops = []
     terms = []
+    used = set()
     for _ in range(rng.randint(1, 3)):
         kind = rng.choice(['lin', 'lin', 'quad', 'sq', 'frozen', 'cube'] + ([] if plain is True else ['der', 'der'] if plain == 'der' else ['der', 'inert', 'inert_coef']))
         c = E.C(G.coef(rng))
         xi = rng.choice(s['x'])
+        xj = rng.choice(s['x'])
+        # generator rule (DESIGN 4.1): no two terms with the same monomial (they could cancel into a constant-false row)
+        key = {'lin': ('m', xi), 'sq': ('m', xi, xi), 'cube': ('m', xi, xi, xi), 'quad': ('m',) + tuple(sorted([xi, xj]))}.get(kind)
+        if key is not None:
+            if key in used:
+                continue
+            used.add(key)
         if kind == 'lin':
             terms.append(('*', c, xi))
         elif kind == 'quad':
-            terms.append(('*', ('*', c, xi), rng.choice(s['x'])))
+            terms.append(('*', ('*', c, xi), xj))
         elif kind == 'sq':
             terms.append(('*', c, ('*', xi, xi)))
         elif kind == 'frozen' and frozen and not plain:
@@ -657,6 +665,8 @@ def gen_inf_case(rng, plain=False, extra=None):
             terms.append(('*', ('*', c, ('off', len(ops) - 1)), xi))
         else:
             terms.append(('*', c, xi))
+    if not terms:
+        terms.append(('*', E.C(G.coef(rng)), rng.choice(s['x'])))
     body = terms[0]
     for t in terms[1:]:
         body = ('+', body, t)
@@ -940,8 +950,10 @@ class C15(NlpCheck):
         name = "tightness-numeric"
         n = 3 if self.tier == 'quick' else 20
         for _ in range(n):
-            base = gen_inf_case(self.rng, plain=True, extra={'methods': [('ss', 'rk')], 'grids': ['uniform', 'geometric'], 'Ns': [2], 'horizon': ['num'],
+            base = gen_inf_case(self.rng, plain=True, extra={'methods': [('ms', 'rk')], 'grids': ['uniform', 'geometric'], 'Ns': [2], 'horizon': ['num'],
                                                              'features': {'p': 0.0, 'pc': 0.0, 'qstate': 0.0, 'time': 0.5}})
+            if E.mentions(base['cons'][0]['a'][0], {'pow'}):
+                continue      # degree-12 Bernstein forms: rockit's numeric basis transformation is too noisy for a gap measurement
             gaps = []
             xv = None
             for M in (1, 2, 4, 8):
@@ -959,7 +971,11 @@ class C15(NlpCheck):
                 if len(xv) != b.nx_opti:
                     gaps = None
                     break
-                info = self.inf_atoms_by_step(d, b, [(xv, pv)], exact=False)
+                try:
+                    info = self.inf_atoms_by_step(d, b, [(xv, pv)], exact=True)
+                except (ZeroDivisionError, OverflowError):
+                    gaps = None
+                    break
                 if not info or not info.get("chunks"):
                     gaps = None
                     break
@@ -978,7 +994,7 @@ class C15(NlpCheck):
                 gap = 0.0
                 for st in range(nsteps):
                     cert = min(float(a_[0]) for a_ in info["chunks"][0][st])
-                    true = min(sv[st * 16:(st + 1) * 16 + 1])
+                    true = min(sv[st * 16:(st + 1) * 16 + (1 if st == nsteps - 1 else 0)])
                     gap = max(gap, true - cert)
                 gaps.append(gap)
             self.evaluations += 1
@@ -986,7 +1002,7 @@ class C15(NlpCheck):
                 continue
             self.count("tightness-runs")
             # gap_M must not grow and must have dropped substantially by M=8 (quadratic in the step for smooth data)
-            if gaps[0] > 1e-9 and not (gaps[3] <= 0.35 * gaps[0] + 1e-9):
+            if gaps[0] > 1e-6 and not (gaps[3] <= 0.35 * gaps[0] + 1e-7):
                 self.slice_ok[name] = False
                 self.violation("certificate gap does not shrink as M grows: gaps for M=1,2,4,8 are %s" % gaps, {"desc": base, "gaps": gaps},
                                {"kind": "inf-not-tight"})
@@ -1893,7 +1909,7 @@ class C19(Check):
                                {"desc": desc, "args": argspec, "mode": mode},
                                {"kind": "exception", "scaled": bool(desc.get('scale_x')), "guess_argument": any(a in ('x', 'u') for a in argspec),
                                 "not_purely_symbolic": "purely symbolic" in str(ex)})
-                if bool(desc.get('scale_x')) and "purely symbolic" in str(ex):
+                if bool(desc.get('scale_x')) and "purely symbolic" in str(ex) and any(a in ('x', 'u') for a in argspec):
                     continue      # recorded known finding: keep exploring
                 return
             self.record_case(desc, True, {"method": desc['method'], "args": argspec, "mode": mode, "kind": kind})
